@@ -96,6 +96,16 @@ def run(ctx):
         problem = None
         db = Database(input_space=ds)
     files = [str(ctx.scratch / "a.h5"), str(ctx.scratch / "b.h5")]
+    # the file may already hold another object: a different design space + database at the root or at another node
+    prior = t.weighted([3, 1, 1], "file_already_holds")
+    if prior:
+        other = DesignSpace()
+        other.add_variable("other", size=2, lower_bound=0.0, upper_bound=5.0, value=array([1.0, 2.0]))
+        odb = Database(input_space=other)
+        odb.store(array([1.0, 2.0]), {"k": 3.0})
+        other_node = "" if (prior == 1 and node) else "elsewhere"
+        odb.to_hdf(files[0], append=False, hdf_node_path=other_node)
+        ctx.fire("file_already_holds_other_data")
     exported = {f: False for f in files}
     model = {}  # (kind, x tuple) -> {name: value}
     ops = []
@@ -119,6 +129,9 @@ def run(ctx):
 
     def compare(path, what):
         back = reload(path, what)
+        if back.input_space is None or back.input_space != ds:
+            ctx.violate("C11.design_space_roundtrip", f"{sig} {what}" + (" prior-data" if prior else ""),
+                        f"after {what}: the input space reloaded with the database differs from the original: {back.input_space} vs {ds}; ops={ops}")
         got, exp = dump(back), model_dump(model)
         ctx.event("compare", what, len(got))
         if got != exp:
@@ -160,7 +173,7 @@ def run(ctx):
             elif k in (2, 3):
                 # one file per history: the pending-point list of a database follows a single file
                 f = files[0]
-                append = k == 2
+                append = k == 2 or bool(prior)  # (a whole export rewrites the file: not when it holds other data)
                 ops.append(("export", "append" if append else "overwrite", os.path.basename(f)))
                 if append and exported[f]:
                     n_append_after_export += 1
